@@ -122,6 +122,17 @@ func cmdDump(args []string) {
 					}
 				}
 			}
+			if os.Getenv("DBGSTATE") != "" {
+				for _, s := range a.Effects() {
+					fmt.Printf("   STATE at E(%d) %s\n", s.EIdx, s.Where(w))
+					for i, ar := range s.Args {
+						fmt.Printf("        canon arg%d = %s\n", i, a.Canon(s.In, ar).pretty())
+					}
+					for _, l := range s.In.units() {
+						fmt.Println("          unit", a.lt.str(l))
+					}
+				}
+			}
 			for _, s := range a.Effects() {
 				fmt.Printf("   effect E(%d) %-8s %s %s\n", s.EIdx, s.Effect, s.Callee, s.Where(w))
 				for i, ar := range s.Args {
